@@ -459,6 +459,7 @@ func c03SentinelCheck(c c03Sentinel) string {
 		cs.Prog = []ops.AddStep{{P: 0, N: "child"}, {P: 1, N: "grandchild"}}
 		cs.UseSub = 1 + c.Opt%2
 	}
+	cs.ZeroNode = c.Kind == "zero"
 	var res *ops.Result
 	if cs.Opts.Massive {
 		res = pool("plain").Run(&cs)
@@ -474,6 +475,9 @@ func c03SentinelCheck(c c03Sentinel) string {
 	}
 	if c.Kind == "nil" && !res.Err.IsNilNode {
 		return head + "want ErrNilNode, got " + fmt.Sprintf("%q", res.Err.Text)
+	}
+	if c.Kind == "zero" && !res.Err.IsNotRoot && !res.Err.IsNilNode {
+		return head + "a node made by neither NewRoot nor Add is not a root: want one of the sentinel errors, got " + fmt.Sprintf("%q", res.Err.Text)
 	}
 	if c.Kind == "nonroot" && !res.Err.IsNotRoot {
 		return head + "want ErrNotRoot, got " + fmt.Sprintf("%q", res.Err.Text)
@@ -493,7 +497,7 @@ func c03SentinelCheck(c c03Sentinel) string {
 func TestC03Sentinels(t *testing.T) {
 	col := coll("C03", "sentinels")
 	col.Rule = "every From-Root function and every deprecated alias x {nil node, non-root node (child, grandchild)} x option variants (plain, json, dry-run, massive)"
-	for _, kind := range []string{"nil", "nonroot"} {
+	for _, kind := range []string{"nil", "nonroot", "zero"} {
 		for _, op := range []string{"output", "walk", "walkiter", "mkdir", "verify"} {
 			for _, alias := range []bool{false, true} {
 				for opt := 0; opt < 8; opt++ {
